@@ -1,4 +1,4 @@
-import MiniVecProof.Proofs.MemCap
+import MiniVecProof.Proofs.MemMove
 /-
   C01 — operation sequences behave exactly like std `Vec` (PARTIAL: proved for the operations in
   `POp`; the remaining operations of the property are tied to the code and to `Vec` by the
@@ -25,6 +25,9 @@ inductive POp
   | reserve_exact (n : Nat)
   | shrink_to (n : Nat)
   | shrink_to_fit
+  | insert (i : Nat) (e : Elem)
+  | remove (i : Nat)
+  | swap_remove (i : Nat)
   deriving Repr
 
 /-- `Vec` semantics on plain lists: new contents and the returned value -/
@@ -34,6 +37,9 @@ def POp.spec : POp → List Elem → List Elem × Option Elem
   | .truncate n, es => (es.take n, none)
   | .clear, _ => ([], none)
   | .reserve _, es | .reserve_exact _, es | .shrink_to _, es | .shrink_to_fit, es => (es, none)
+  | .insert i e, es => (es.take i ++ [e] ++ es.drop i, none)
+  | .remove i, es => (es.eraseIdx i, es[i]?)
+  | .swap_remove i, es => ((match es.getLast? with | some l => (es.set i l).take (es.length - 1) | none => es), es[i]?)
 
 /-- the model (hand-written pointer code on top of the regenerated decision programs) -/
 def POp.run (X : Ctx) : POp → VM (Option Elem)
@@ -45,6 +51,9 @@ def POp.run (X : Ctx) : POp → VM (Option Elem)
   | .reserve_exact n => do Vec.reserve_exact X n; pure none
   | .shrink_to n => do Vec.shrink_to X n; pure none
   | .shrink_to_fit => do Vec.shrink_to_fit X; pure none
+  | .insert i e => do Vec.insert X i e; pure none
+  | .remove i => do let x ← Vec.remove X i; pure (some x)
+  | .swap_remove i => do let x ← Vec.swap_remove X i; pure (some x)
 
 /-- one operation refines its specification, or stops benignly leaving the handle as it was -/
 theorem capMem_refines (X : Ctx) (s : St) (es : List Elem) (x : VM Unit) (habs0 : Abs X s.v es)
@@ -58,8 +67,15 @@ theorem capMem_refines (X : Ctx) (s : St) (es : List Elem) (x : VM Unit) (habs0 
   | stopped p s' hv hp _ => exact .inr ⟨p, s', rfl, hp, hv⟩
   | grown s' habs _ _ _ _ => exact .inl ⟨s', rfl, habs⟩
 
+/-- the documented argument limits (outside them both `Vec` and `MiniVec` panic: C11) -/
+def POp.inRange : POp → List Elem → Prop
+  | .insert i _, es => i ≤ es.length
+  | .remove i, es | .swap_remove i, es => i < es.length
+  | _, _ => True
+
 /-- (`hq`: no user destructor panics — destructor panics are the subject of C04) -/
-theorem POp.refines (X : Ctx) (hq : ∀ k, X.o.panicAt k = false) (op : POp) (s : St) (es : List Elem) (h : Abs X s.v es) :
+theorem POp.refines (X : Ctx) (hq : ∀ k, X.o.panicAt k = false) (op : POp) (s : St) (es : List Elem) (h : Abs X s.v es)
+    (hr : op.inRange es) :
     (∃ s', op.run X s = (.ok (op.spec es).2, s') ∧ Abs X s'.v (op.spec es).1) ∨
     (∃ p s', op.run X s = (.error p, s') ∧ Panic.benign p = true ∧ s'.v = s.v) := by
   cases op with
@@ -91,6 +107,28 @@ theorem POp.refines (X : Ctx) (hq : ∀ k, X.o.panicAt k = false) (op : POp) (s 
   | reserve_exact n => exact capMem_refines X s es _ h (reserve_exact_mem X s es n h)
   | shrink_to n => exact capMem_refines X s es _ h (shrink_to_mem X s es n h)
   | shrink_to_fit => exact capMem_refines X s es _ h (shrink_to_fit_mem X s es h)
+  | insert i e =>
+    have := (insert_spec X s es i e h).1
+    simp only [POp.run, VM.bind_run, POp.spec]
+    generalize Vec.insert X i e s = out at this
+    cases this with
+    | inserted s' _ habs => exact .inl ⟨s', rfl, habs⟩
+    | stopped p s' hv hp => exact .inr ⟨p, s', rfl, hp, hv⟩
+  | remove i =>
+    have hi : i < es.length := hr
+    obtain ⟨v', hrun, habs, _⟩ := remove_spec X s es i h hi
+    refine .inl ⟨{ s with v := v' }, ?_, habs⟩
+    simp only [POp.run, VM.bind_run, hrun, POp.spec, VM.pure_run]
+    simp [List.getElem?_eq_getElem hi]
+  | swap_remove i =>
+    have hi : i < es.length := hr
+    obtain ⟨v', hrun, habs, _⟩ := swap_remove_spec X s es i h hi
+    have hl : es.getLast? = some (es[es.length - 1]'(by omega)) := by
+      rw [List.getLast?_eq_getElem?]; simp [List.getElem?_eq_getElem (show es.length - 1 < es.length by omega)]
+    refine .inl ⟨{ s with v := v' }, ?_, ?_⟩
+    · simp only [POp.run, VM.bind_run, hrun, POp.spec, VM.pure_run]
+      simp [List.getElem?_eq_getElem hi]
+    · simp only [POp.spec, hl]; exact habs
 
 /-- run a sequence; stop at the first operation that does not return -/
 def runOps (X : Ctx) : List POp → St → List (Option Elem) → (Except Panic (List (Option Elem))) × St
@@ -104,17 +142,23 @@ def specOuts : List POp → List Elem → List (Option Elem) → List (Option El
   | [], es, outs => (outs, es)
   | op :: rest, es, outs => specOuts rest (op.spec es).1 (outs ++ [(op.spec es).2])
 
+/-- every operation of the sequence is within the documented limits for the contents the
+    specification has at that point -/
+def allInRange : List POp → List Elem → Prop
+  | [], _ => True
+  | op :: rest, es => op.inRange es ∧ allInRange rest (op.spec es).1
+
 theorem C01_refines_vec_partial (X : Ctx) (hq : ∀ k, X.o.panicAt k = false) (ops : List POp) (s : St) (es : List Elem) (outs : List (Option Elem))
-    (h : Abs X s.v es) :
+    (h : Abs X s.v es) (hr : allInRange ops es) :
     (∃ s', runOps X ops s outs = (.ok (specOuts ops es outs).1, s') ∧ Abs X s'.v (specOuts ops es outs).2) ∨
     (∃ p s', runOps X ops s outs = (.error p, s') ∧ Panic.benign p = true ∧ ∃ es', Abs X s'.v es') := by
   induction ops generalizing s es outs with
   | nil => exact .inl ⟨s, rfl, h⟩
   | cons op rest ih =>
-    rcases POp.refines X hq op s es h with ⟨s', hr, habs⟩ | ⟨p, s', hr, hp, hv⟩
-    · simp only [runOps, hr, specOuts]
-      exact ih s' _ _ habs
-    · simp only [runOps, hr]
+    rcases POp.refines X hq op s es h hr.1 with ⟨s', hrun, habs⟩ | ⟨p, s', hrun, hp, hv⟩
+    · simp only [runOps, hrun, specOuts]
+      exact ih s' _ _ habs hr.2
+    · simp only [runOps, hrun]
       exact .inr ⟨p, s', rfl, hp, es, by rw [hv]; exact h⟩
 
 /-- non-vacuity: the never-allocated vector is well formed, so the theorem applies to every history
